@@ -1,4 +1,5 @@
 // C18 (C++ side): dump BasicZoneProcessor::calcStartDayOfMonth for every admitted expression.
+#include <map>
 #include "acetime_all.h"
 #include "verif.h"
 #include "civil.h"
@@ -21,6 +22,30 @@ int main(int argc, char** argv) {
     }
   }
   fclose(f);
+  // ---- second pass in other call orders: the resolution is a pure function of its arguments, so re-evaluating each case right
+  //      after its mirror image (<=d / >=d), its neighbour month or itself must give what a call in the plain nested order gave
+  {
+    std::map<uint32_t, uint16_t> first;
+    auto keyf = [](int y, int m, int dow, int d) { return (uint32_t)(((y - 1873) * 12 + (m - 1)) * 8 + dow) * 64u + (uint32_t)(d + 31); };
+    auto valid = [](int y, int m, int dow, int d) { return m >= 1 && m <= 12 && !(dow == 0 && d < 1) && abs(d) <= civil::dim(y, m); };
+    for (int y = 1873; y <= 2126; y++) for (int m = 1; m <= 12; m++) for (int dow = 0; dow <= 7; dow++) for (int d = -31; d <= 31; d++) {
+      if (!valid(y, m, dow, d)) continue;
+      basic::MonthDay md = BasicZoneProcessor::calcStartDayOfMonth(y, m, dow, d); first[keyf(y, m, dow, d)] = (uint16_t)(md.month * 256 + md.day);
+    }
+    uint64_t n2 = 0;
+    auto again = [&](int y, int m, int dow, int d, const char* after) {
+      if (!valid(y, m, dow, d)) return;
+      basic::MonthDay md = BasicZoneProcessor::calcStartDayOfMonth(y, m, dow, d); n2++;
+      uint16_t w = first[keyf(y, m, dow, d)];
+      if ((uint16_t)(md.month * 256 + md.day) != w)
+        violation("c18:cxx-result-depends-on-call-order", fmt("{\"year\":%d,\"month\":%d,\"dayOfWeek\":%d,\"dayOfMonth\":%d,\"called_after\":\"%s\",\"got\":[%d,%d],\"in_plain_order\":[%d,%d]}", y, m, dow, d, after, md.month, md.day, w / 256, w % 256));
+    };
+    for (int y = 1873; y <= 2126; y++) for (int dow = 1; dow <= 7; dow++) for (int d = 1; d <= 31; d++) for (int m = 1; m <= 12; m++) {
+      again(y, m, dow, -d, "previous month"); again(y, m, dow, d, "its <= mirror"); again(y, m + 1, dow, d, "same expression one month earlier");
+      again(y, m, dow, -d, "next month >="); again(y, m - 1, dow, d, "<= of the next month"); again(y, m, dow, 0, "previous month"); again(y, m, dow, d, "lastXxx");
+    }
+    c.add("cxx_cases_reordered", n2);
+  }
   c.add("cxx_cases", n);
   done(c);
   return 0;
